@@ -35,13 +35,19 @@ namespace verif48 {
     //! cubic non-linearity coefficient: s_i = sum_j D_ij e_j + nl * e_i^3
     real nl = 0;
 
-    Hypothesis getHypothesis() const override { return ModellingHypothesis::TRIDIMENSIONAL; }
+    //! modelling hypothesis and behaviour type reported to MTest (complete runs through the public API:
+    //! MTest::completeInitialisation adds the constraints implied by the hypothesis for strain based behaviours)
+    Hypothesis hyp = ModellingHypothesis::TRIDIMENSIONAL;
+    bool strain_based = false;
+    Hypothesis getHypothesis() const override { return hyp; }
     std::string getBehaviourName() const override { return "verif-mock"; }
     BehaviourType getBehaviourType() const override {
-      return tfel::material::MechanicalBehaviourBase::GENERALBEHAVIOUR;
+      return strain_based ? tfel::material::MechanicalBehaviourBase::STANDARDSTRAINBASEDBEHAVIOUR
+                          : tfel::material::MechanicalBehaviourBase::GENERALBEHAVIOUR;
     }
     Kinematic getBehaviourKinematic() const override {
-      return tfel::material::MechanicalBehaviourBase::UNDEFINEDKINEMATIC;
+      return strain_based ? tfel::material::MechanicalBehaviourBase::SMALLSTRAINKINEMATIC
+                          : tfel::material::MechanicalBehaviourBase::UNDEFINEDKINEMATIC;
     }
     unsigned short getGradientsSize() const override { return ndv; }
     void getGradientsDefaultInitialValues(tfel::math::vector<real>& v) const override {
@@ -59,9 +65,11 @@ namespace verif48 {
     std::vector<std::string> getGradientsComponents() const override { return names('e'); }
     std::vector<std::string> getThermodynamicForcesComponents() const override { return names('s'); }
     unsigned short getGradientComponentPosition(const std::string& n) const override {
+      if (n.empty() || n[0] != 'e') throw std::runtime_error("verif-mock: '" + n + "' is not a gradient component");
       return static_cast<unsigned short>(std::stoi(n.substr(1)));
     }
     unsigned short getThermodynamicForceComponentPosition(const std::string& n) const override {
+      if (n.empty() || n[0] != 's') throw std::runtime_error("verif-mock: '" + n + "' is not a force component");
       return static_cast<unsigned short>(std::stoi(n.substr(1)));
     }
     size_t getTangentOperatorArraySize() const override { return ndv * ndv; }
